@@ -7,8 +7,8 @@ Import-free and executable, on top of `Model/Pipeline.lean`:
 1. **The second pair of builders** `build_pre_mri_transforms` / `build_post_mri_transforms` (the CPU / GPU
    split of the same pipeline).  They re-implement the mechanism with a *different order*: the target is
    computed from the un-normalised k-space and normalised afterwards by `NormalizeModule`'s default key list.
-2. **The error branch of the percentile scaling**: `torch.kthvalue` raises `IndexError` when no coil of the
-   scaling tensor has a non-zero sum (`execE` / `runE` refine `exec` / `run` with that check).
+2. **The error branch of the percentile scaling**: `torch.kthvalue` raises `IndexError` when the scaling tensor is
+   identically zero (no coil has a non-zero entry; `execE` / `runE` refine `exec` / `run` with that check).
 3. **Samples that already contain tensor entries** (`sampling_mask` / `acs_mask` of prospectively under-sampled
    data, `sensitivity_map` from the dataset): `runFrom`, `givenEnv`, `Config.validG`.
 (The structural tables of the builders' signatures and of the `ModuleWrapper` aliases are in
@@ -79,8 +79,11 @@ selection (raised while computing the value of key `k`) -/
 inductive ErrE | base (e : Err) | indexError (k : Key)
   deriving DecidableEq, Repr, Inhabited
 
-/-- the entries `ComputeScalingFactor`'s percentile branch keeps: the coils whose entries do not sum to zero -/
+/-- the entries `ComputeScalingFactor`'s percentile branch keeps: the coils with some non-zero entry -/
 def kthSelection (S : Ops K) (x : Val K) : List K := nonzeroCoils S (x.data.length / x.nc) x.nc x.data
+
+/-- … and what it kept before the repair (coils whose entries do not sum to zero) -/
+def kthSelectionPinned (S : Ops K) (x : Val K) : List K := nonzeroCoilsPinned S (x.data.length / x.nc) x.nc x.data
 
 /-- `torch.kthvalue(tview, int((1 - p) * n) + 1)` is defined iff `tview` is not empty -/
 def instrDefined (S : Ops K) (i : Instr) (s : Store K) : Bool :=
